@@ -40,6 +40,7 @@ class Heap:
     def __init__(self):
         self.arrs = {}
         self.next = 1
+        self.version = 0
 
     def new(self, n, default):
         i = self.next
@@ -59,6 +60,7 @@ class Heap:
         return c.get(i, d)
 
     def put(self, h, i, v):
+        self.version += 1
         self.arrs[h[1]][2][i] = v
 
     def length(self, h):
@@ -83,10 +85,14 @@ def pmodel(*names):
 class PEval(Folder):
     def __init__(self, facts, max_steps=80_000_000, max_depth=24):
         super().__init__(facts, max_depth=max_depth, max_steps=max_steps)
+        from . import fold as _fold
+        _fold.ADTS = facts.adts
         self.heap = Heap()
         self.memo = {}
         self.steps_total = 0
         self.calls_seen = {}
+        self._pdom = {}
+        self.sym_steps = 0
         self.summaries = {}  # callee path -> model, installed by a rule for one evaluation (opaque, separately verified callees)
 
     # loops are allowed: termination is guaranteed by the step budget, and every
@@ -326,6 +332,89 @@ class PEval(Folder):
                 cur_proj.append(e)
         return ("ref", ("place", cur_f, cur_l, tuple(cur_proj)))
 
+    # ------------------------------------------- branches on a symbolic boolean
+    # Both edges are evaluated up to the immediate post-dominator of the branch and the two states are merged:
+    # equal values stay, strings keep their common prefix and get a ("sel", cond, then, else) token, anything else
+    # becomes a ("sel", cond, a, b) value (opaque to arithmetic, so a later use as an index or branch aborts).
+    def _ipdom(self, fn, b):
+        cache = self._pdom.get(fn.path)
+        if cache is None:
+            n = fn.n
+            live = [i for i in range(n) if not fn.blocks[i]["cleanup"]]
+            succ = {i: [x for x in fn.succ[i] if not fn.blocks[x]["cleanup"]] for i in live}
+            EXIT = -1
+            full = set(live) | {EXIT}
+            pd = {i: set(full) for i in live}
+            pd[EXIT] = {EXIT}
+            changed = True
+            while changed:
+                changed = False
+                for i in live:
+                    ss = succ[i] or [EXIT]
+                    new = set(full)
+                    for x in ss:
+                        new &= pd[x]
+                    new |= {i}
+                    if new != pd[i]:
+                        pd[i] = new
+                        changed = True
+            cache = {}
+            for i in live:
+                strict = pd[i] - {i}
+                best = None
+                for c in strict:
+                    if len(pd[c]) == len(strict):
+                        best = c
+                cache[i] = best
+            self._pdom[fn.path] = cache
+        return cache.get(b)
+
+    def _switch(self, st, t, v):
+        if v != TOP and v[0] == "sbit":
+            return self._sym_switch(st, t, v)
+        return super()._switch(st, t, v)
+
+    def _sym_switch(self, st, t, v):
+        fr = st.frames[-1]
+        fn = fr[0]
+        depth = len(st.frames)
+        J = self._ipdom(fn, fr[2])
+        if J is None or J < 0:
+            raise _Abort("top", "branch on a symbolic value without a join point in %s" % fn.path)
+        if len(t["arms"]) != 1 or t["arms"][0][0] != 0:
+            raise _Abort("top", "symbolic value in a non-boolean switch")
+        tgt_false, tgt_true = t["arms"][0][1], t["otherwise"]
+        outs = []
+        for tgt in (tgt_true, tgt_false):
+            s2 = st.clone()
+            hv = self.heap.version
+            self._enter_block(s2, tgt)
+            while not (len(s2.frames) == depth and s2.frames[-1][2] == J and s2.frames[-1][3] == 0):
+                self.sym_steps += 1
+                if self.sym_steps > self.max_steps:
+                    raise _Abort("top", "step budget exhausted under a symbolic branch")
+                if len(s2.frames) < depth:
+                    raise _Abort("top", "function returns under a symbolic branch")
+                done = self._step(s2)
+                if done is not None:
+                    raise _Abort("top", "evaluation ends under a symbolic branch")
+            if self.heap.version != hv:
+                raise _Abort("top", "matrix written under a symbolic condition")
+            outs.append(s2)
+        a, b = outs
+        cond = (v[1], v[2])
+        if v[3]:
+            a, b = b, a
+        for i in range(depth):
+            la, lb = a.frames[i][1], b.frames[i][1]
+            merged = {}
+            for k in set(la) | set(lb):
+                x, y = la.get(k, TOP), lb.get(k, TOP)
+                merged[k] = x if x == y else merge_sel(cond, x, y)
+            st.frames[i][1] = merged
+        st.frames[-1][2] = J
+        st.frames[-1][3] = 0
+
     # ------------------------------------------------- symbolic payload bits
     # A payload byte vector may be given as ("symvec",): its bytes are ("sbyte", j).  The only operations the
     # placement code applies to them are `byte & (1 << k)` and `!= 0`, giving ("sbit", j, k, negated).  A module whose
@@ -534,6 +623,9 @@ def _as_iter(pe, st, v):
         tgt = pe._load_ptr(st, v[1])
         if tgt != TOP and tgt[0] == "array":
             return ("iter", tuple(("ref", ("const", x)) for x in tgt[1]), 0)
+        if tgt != TOP and tgt[0] == "hview":
+            h = ("harr", tgt[1])
+            return ("iter", tuple(("ref", ("const", pe.heap.get(h, i))) for i in range(tgt[2], tgt[3])), 0)
     return None
 
 
@@ -594,6 +686,22 @@ def _chain(pe, st, args, t):
     return ("iter", tuple(a[1][a[2]:]) + tuple(b[1][b[2]:]), 0)
 
 
+@pmodel("std::iter::Iterator::zip")
+def _zip(pe, st, args, t):
+    a, b = _as_iter(pe, st, args[0]), _as_iter(pe, st, args[1])
+    if a is None or b is None:
+        raise _Abort("top", "zip() of an unknown iterator")
+    return ("iter", tuple(("tuple", (x, y)) for x, y in zip(a[1][a[2]:], b[1][b[2]:])), 0)
+
+
+@pmodel("std::iter::Iterator::take")
+def _take(pe, st, args, t):
+    a, n = _as_iter(pe, st, args[0]), args[1]
+    if a is None or n == TOP or n[0] != "int":
+        raise _Abort("top", "take() of an unknown iterator")
+    return ("iter", tuple(a[1][a[2]:a[2] + n[2]]), 0)
+
+
 @pmodel("std::iter::Iterator::skip")
 def _skip(pe, st, args, t):
     a, n = _as_iter(pe, st, args[0]), args[1]
@@ -610,6 +718,8 @@ def _skip(pe, st, args, t):
         "<std::iter::StepBy<I> as std::iter::Iterator>::next",
         "<std::iter::Chain<A, B> as std::iter::Iterator>::next",
         "<std::iter::Skip<I> as std::iter::Iterator>::next",
+        "<std::iter::Zip<A, B> as std::iter::Iterator>::next",
+        "<std::iter::Take<I> as std::iter::Iterator>::next",
         "<std::slice::Iter<'a, T> as std::iter::Iterator>::next")
 def _next(pe, st, args, t):
     r = args[0]
@@ -726,6 +836,124 @@ def _vec_index(pe, st, args, t):
             raise _Abort("diverge", "index out of range")
         return ("ref", ("const", v[1][i[2]]))
     raise _Abort("top", "Vec index on an unknown vector")
+
+
+# --------------------------------------------------------------------------
+# strings: ("string", (tokens...)); a token is a code point or ("sel", cond, then-tokens, else-tokens) or ("disp", value)
+# --------------------------------------------------------------------------
+
+def merge_sel(cond, x, y):
+    if x != TOP and y != TOP and x[0] == "string" and y[0] == "string":
+        a, b = x[1], y[1]
+        n = 0
+        while n < len(a) and n < len(b) and a[n] == b[n]:
+            n += 1
+        return ("string", a[:n] + (("sel", cond, a[n:], b[n:]),))
+    return ("sel", cond, x, y)
+
+
+def _str_tokens(pe, st, v):
+    v = _deref(pe, st, v)
+    if v == TOP:
+        return None
+    if v[0] == "string":
+        return v[1]
+    if v[0] == "str":
+        return tuple(ord(c) for c in v[1])
+    if v[0] == "char":
+        return (v[1],)
+    return None
+
+
+@pmodel("std::string::String::new", "std::string::String::with_capacity")
+def _string_new(pe, st, args, t):
+    return ("string", ())
+
+
+@pmodel("std::string::String::push")
+def _string_push(pe, st, args, t):
+    r, c = args
+    cur = _deref(pe, st, r)
+    if r == TOP or r[0] != "ref" or cur == TOP or cur[0] != "string" or c == TOP or c[0] != "char":
+        raise _Abort("top", "String::push on an unknown string/char")
+    pe.store_ptr(st, r[1], ("string", cur[1] + (c[1],)))
+    return UNIT
+
+
+@pmodel("std::string::String::push_str")
+def _string_push_str(pe, st, args, t):
+    r, x = args
+    cur = _deref(pe, st, r)
+    toks = _str_tokens(pe, st, x)
+    if r == TOP or r[0] != "ref" or cur == TOP or cur[0] != "string" or toks is None:
+        raise _Abort("top", "String::push_str on an unknown string")
+    pe.store_ptr(st, r[1], ("string", cur[1] + toks))
+    return UNIT
+
+
+@pmodel("std::string::String::pop")
+def _string_pop(pe, st, args, t):
+    r = args[0]
+    cur = _deref(pe, st, r)
+    if r == TOP or r[0] != "ref" or cur == TOP or cur[0] != "string":
+        raise _Abort("top", "String::pop on an unknown string")
+    if not cur[1]:
+        return NONE
+    last = cur[1][-1]
+    if not isinstance(last, int):
+        raise _Abort("top", "String::pop of a symbolic character")
+    pe.store_ptr(st, r[1], ("string", cur[1][:-1]))
+    return some(("char", last))
+
+
+@pmodel("<std::string::String as std::ops::Deref>::deref", "std::string::String::as_str", "std::hint::must_use")
+def _identity(pe, st, args, t):
+    return args[0]
+
+
+@pmodel("core::fmt::rt::Argument::<'_>::new_display")
+def _new_display(pe, st, args, t):
+    return ("fmtarg", _deref(pe, st, args[0]))
+
+
+@pmodel("std::fmt::Arguments::<'a>::new")
+def _arguments_new(pe, st, args, t):
+    tpl = _deref(pe, st, args[0])
+    arr = _deref(pe, st, args[1])
+    if tpl == TOP or tpl[0] != "array" or arr == TOP or arr[0] != "array":
+        raise _Abort("top", "format arguments not constant")
+    bs = []
+    for b in tpl[1]:
+        if b == TOP or b[0] != "int":
+            raise _Abort("top", "format template not constant")
+        bs.append(b[2])
+    return ("fmtargs", tuple(bs), arr[1])
+
+
+@pmodel("std::fmt::format")
+def _fmt_format(pe, st, args, t):
+    from .mir import decode_template
+    a = args[0]
+    if a == TOP or a[0] != "fmtargs":
+        raise _Abort("top", "format of unknown arguments")
+    out = []
+    for piece in decode_template(list(a[1])):
+        if piece[0] == "lit":
+            out += [ord(c) for c in piece[1]]
+        else:
+            idx = piece[1]
+            if idx >= len(a[2]) or a[2][idx] == TOP or a[2][idx][0] != "fmtarg":
+                raise _Abort("top", "format placeholder without argument")
+            v = a[2][idx][1]
+            if v != TOP and v[0] == "char":
+                out.append(v[1])
+            elif v != TOP and v[0] == "int" and piece[2] is None and piece[3] is None:
+                out += [ord(c) for c in str(v[2])]
+            elif v != TOP and v[0] == "string":
+                out += list(v[1])
+            else:
+                out.append(("disp", v))
+    return ("string", tuple(out))
 
 
 # --------------------------------------------------------------------------
